@@ -193,14 +193,26 @@ pub fn run(ctx: &Ctx) -> i32 {
                         let mut out = vec![];
                         p.write(&mut out)?;
                         let q = rpm::Package::parse(&mut &out[..])?;
-                        q.metadata.get_file_entries().map(|v| v.first().map(|f| f.mode))
+                        // the word in the archive entry, decoded independently (the package is not compressed)
+                        let archived = vlib::refhdr::scan(&out).and_then(|(_, _, _, l)| vlib::refcpio::read_archive(&out[l.payload_off..], &[]).ok()).and_then(|(ents, _)| {
+                            ents.into_iter().find_map(|e| match e {
+                                vlib::refcpio::Ent::Newc(c) => Some(c.mode),
+                                _ => None,
+                            })
+                        });
+                        q.metadata.get_file_entries().map(|v| v.first().map(|f| (f.mode, archived)))
                     });
                     match r {
                         Err(p) => acc.viol(panic_violation("through-builder", &p, case).rank(idx)),
                         Ok(Err(_)) => acc.count("rejected by the builder or on re-parse (not judged)"),
                         Ok(Ok(None)) => acc.count("no file entry"),
-                        Ok(Ok(Some(m))) => {
+                        Ok(Ok(Some((m, archived)))) => {
                             acc.nontrivial += 1;
+                            match archived {
+                                None => acc.count("archive entry not decoded (not judged)"),
+                                Some(a) if a != w as u32 => acc.viol(Violation::new("through-builder", format!("mode word {:#o} given to FileOptions::mode ({}) is archived as {:#o} in the cpio entry", w, if extra.is_empty() { "alone" } else { extra }, a), case.clone()).sig("clause", "archived-mode").rank(idx)),
+                                Some(_) => acc.count("archived word equals the given word"),
+                            }
                             if m.raw_mode() != w || m != FileMode::from(w) {
                                 acc.viol(Violation::new("through-builder", format!("mode word {:#o} given to FileOptions::mode ({}) comes back as {:?} ({:#o})", w, if extra.is_empty() { "alone" } else { extra }, m, m.raw_mode()), case).sig("clause", "builder-roundtrip").rank(idx));
                             }
@@ -237,8 +249,50 @@ pub fn run(ctx: &Ctx) -> i32 {
                 Ok(other) => acc.count(&format!("not judged: {:?}", other.map(|_| ()).map_err(|e| e.to_string()))),
             }
         }
+        // and out onto the file system: the permission bits of extracted files and directories (a directory that holds other
+        // packaged entries included) are those of the word
+        for perms in [0o700u16, 0o755, 0o750, 0o711, 0o1777, 0o2775, 0o4711, 0o7777, 0o600, 0o644] {
+            idx += 1;
+            acc.evals += 1;
+            let src = dir.join("src");
+            std::fs::write(&src, b"x").expect("temp");
+            let to = dir.join(format!("extract-{:o}", perms));
+            let _ = std::fs::remove_dir_all(&to);
+            let case = json!({"kind": "extracted", "permissions": format!("{:#o}", perms), "entries": "/h (directory), /h/inner (file), /h/sub (directory), /h/sub/x (file), /empty (directory), /f (file)"});
+            let (dperm, fperm) = (perms | 0o700, perms & !0o111 | 0o600);
+            let r = catch(|| {
+                let p = rpm::PackageBuilder::new("t", "1", "MIT", "noarch", "s")
+                    .compression(rpm::CompressionType::None)
+                    .with_file(&src, rpm::FileOptions::new("/h").mode(FileMode::dir(dperm)))?
+                    .with_file(&src, rpm::FileOptions::new("/h/inner").mode(FileMode::regular(fperm)))?
+                    .with_file(&src, rpm::FileOptions::new("/h/sub").mode(FileMode::dir(dperm)))?
+                    .with_file(&src, rpm::FileOptions::new("/h/sub/x").mode(FileMode::regular(fperm)))?
+                    .with_file(&src, rpm::FileOptions::new("/empty").mode(FileMode::dir(dperm)))?
+                    .with_file(&src, rpm::FileOptions::new("/f").mode(FileMode::regular(fperm)))?
+                    .build()?;
+                p.extract(&to)
+            });
+            match r {
+                Err(p) => acc.viol(panic_violation("through-builder", &p, case).rank(idx)),
+                Ok(Err(e)) => acc.count(&format!("not judged: {}", e).chars().take(60).collect::<String>()),
+                Ok(Ok(())) => {
+                    acc.nontrivial += 1;
+                    for (rel, want) in [("h", 0o040000 | dperm), ("h/inner", 0o100000 | fperm), ("h/sub", 0o040000 | dperm), ("h/sub/x", 0o100000 | fperm), ("empty", 0o040000 | dperm), ("f", 0o100000 | fperm)] {
+                        match std::fs::symlink_metadata(to.join(rel)) {
+                            Err(_) => acc.count("extracted entry missing (C12's matter, not judged here)"),
+                            Ok(md) => {
+                                let got = (md.permissions().mode() & 0o177777) as u16;
+                                if got != want || FileMode::from(got) != FileMode::from(want) {
+                                    acc.viol(Violation::new("through-builder", format!("/{} is packaged with mode word {:#o} and extracted with mode word {:#o}", rel, want, got), case.clone()).sig("clause", "extracted-mode").rank(idx));
+                                }
+                            }
+                        }
+                    }
+                }
+            }
+        }
         let _ = std::fs::remove_dir_all(&dir);
-        SubReport::new("through-builder", "A", "each of the 16 type nibbles × permissions {0, 0644, 0755, 04755, 02750, 01777, 07777} given to FileOptions::mode — alone, with a link target, with capabilities — built, written, parsed: the recorded word equals the given word; and regular source files with nine permission patterns (incl. set-uid, set-gid, sticky) packaged without an explicit mode: the recorded word is 0100000 | permissions. non-trivial = read back", acc)
+        SubReport::new("through-builder", "A", "each of the 16 type nibbles × permissions {0, 0644, 0755, 04755, 02750, 01777, 07777} given to FileOptions::mode — alone, with a link target, with capabilities — built, written, parsed: the recorded word equals the given word, and so does the word in the archive entry (decoded independently); packages with directories (one holding other packaged entries, one nested, one empty) and files in ten permission patterns, extracted: the st_mode of every extracted entry is the packaged word; and regular source files with nine permission patterns (incl. set-uid, set-gid, sticky) packaged without an explicit mode: the recorded word is 0100000 | permissions. non-trivial = read back", acc)
     };
     ctx.finish(
         "exploration",
